@@ -191,6 +191,27 @@ def merge_config_sections(existing_content: str, missing_sections: dict[str, str
     return existing_content.rstrip() + "\n\n" + sections_text + "\n"
 
 
+def _keeps_existing_settings(merged_content: str, existing_config: dict) -> bool:
+    """Check that merged text is valid YAML and still carries every existing setting."""
+    try:
+        merged = yaml.safe_load(merged_content)
+    except yaml.YAMLError:
+        return False
+    if not isinstance(merged, dict):
+        return False
+    return all(key in merged and merged[key] == value for key, value in existing_config.items())
+
+
+def _merge_structurally(existing_config: dict, missing_sections: dict[str, str]) -> str:
+    """Merge on parsed data: existing settings first, then the missing sections."""
+    data = dict(existing_config)
+    for section_text in missing_sections.values():
+        section = yaml.safe_load(section_text)
+        if isinstance(section, dict):
+            data.update({k: v for k, v in section.items() if k not in data})
+    return yaml.safe_dump(data, sort_keys=False, allow_unicode=True)
+
+
 def _parse_existing_config(content: str, output: str) -> dict:
     """Parse existing config file content as YAML."""
     try:
@@ -238,6 +259,10 @@ def perform_merge(
 
     missing_sections = _build_missing_sections_dict(missing_names, template_sections)
     merged_content = merge_config_sections(existing_content, missing_sections)
+    if not _keeps_existing_settings(merged_content, existing_config):
+        # Appending text would corrupt this file (flow style, document end marker, ...):
+        # merge the parsed data instead so that no existing setting is lost
+        merged_content = _merge_structurally(existing_config, missing_sections)
     output_path.write_text(merged_content, encoding="utf-8")
 
     _report_merge_results(missing_names, output)
